@@ -46,7 +46,7 @@ Record cst := mkc {
   served : bool;        (* ghost: passed the closing check of handleLoop *)
   sock_closed : bool;   (* conn.Close() has been called (by the handler or by Close) *)
   client_gone : bool;   (* the client closed its side *)
-  is_connect : bool;    (* the current request is a CONNECT *)
+  is_connect : bool;    (* the current exchange is a tunnel: a CONNECT, or a request answered with 101 *)
   hs : bool;            (* a listener TLS handshake is still pending (maybeHandshakeTLS) *)
   nreq : N              (* ghost: requests forwarded on this connection *)
 }.
@@ -90,6 +90,8 @@ Inductive label :=
 | TChkReq (i : nat)      (* (tau) `if p.closing() { return errClose }` of handle *)
 | Fwd (i : nat)          (* RoundTrip / dial entered *)
 | RTLeave (i : nat)      (* RoundTrip / dial returned (response or error response) *)
+| RTLeaveUp (i : nat)    (* RoundTrip returned 101 Switching Protocols: the exchange becomes a tunnel (WebSocket),
+                            handled from here on exactly like a successful CONNECT *)
 | TDecide (i : nat)      (* (tau) writeResponse: `if p.closing() { res.Close = true }` *)
 | WrCall (i : nat)       (* first conn.Write of the response called *)
 | Wrote (i : nat) (close err : bool)  (* response written / tunnel over; ProxyTrace.WroteResponse *)
@@ -180,6 +182,8 @@ Definition hstep (closing_now : bool) (c : cst) (l : label) : option cst :=
   | Fwd _, CChecked =>
       Some (mkc CFwd (acc_closing c) (fb_closing c) (served c) (sock_closed c) (client_gone c) (is_connect c) (hs c) (nreq c + 1)%N)
   | RTLeave _, CFwd => Some (set_pc c CResp)
+  | RTLeaveUp _, CFwd =>
+      Some (mkc CResp (acc_closing c) (fb_closing c) (served c) (sock_closed c) (client_gone c) true (hs c) (nreq c))
   | TDecide _, CResp => Some (set_pc c (CWriting closing_now))
   | WrCall _, CWriting b => Some (set_pc c (CWriting2 b))
   | Wrote _ b e, CWriting b' =>
@@ -205,7 +209,7 @@ Definition hstep (closing_now : bool) (c : cst) (l : label) : option cst :=
 Definition label_conn (l : label) : option nat :=
   match l with
   | TlsConn i | HsDone i | THsFail i | TSilentClose i
-  | Addr i | TChkConn i | FirstByte i | ReqRead i _ | TChkReq i | Fwd i | RTLeave i | TDecide i
+  | Addr i | TChkConn i | FirstByte i | ReqRead i _ | TChkReq i | Fwd i | RTLeave i | RTLeaveUp i | TDecide i
   | WrCall i | Wrote i _ _ | TConnRefuse i | ClientGone i => Some i
   | _ => None
   end.
